@@ -76,8 +76,12 @@ def cmd_check(a):
             fp, st.vcount[fp], json.dumps(v["expected"], default=str)[:300], json.dumps(v["observed"], default=str)[:300]))
     # vacuity guards (model side only)
     missed = [g for g in check.goals(tier) if st.goals.get(g, 0) == 0]
-    if missed:
+    if missed and not new:
         errors.append((-1, "coverage goals missed: {}".format(", ".join(missed)), ""))
+    elif missed:
+        # goals are meant to be decided on the model side only; where one is reached only after the implementation
+        # answered, a violating implementation can starve it -- the violation already explains the run
+        lines.append("  # note: coverage goals not reached in this violating run: {}".format(", ".join(missed)))
     space = check.space_size(tier) if hasattr(check, "space_size") else None
     exhaustive = not st.caps and not errors
     if space is not None and space != st.evaluations + st.filtered:
